@@ -369,6 +369,11 @@ def check(repo: Repo, run: Run) -> None:
             # the record is built by a method of a helper class the interpreter did not follow (`KdBuf.unpack(b).to_kevent()`)
             raise AnalysisError(f"from_kd_buf returns {sym.pretty(r_.value)[:70]}: computed by a helper that is not interpreted in "
                                 f"place - what the record's fields are is not decided")
+        if not is_kevent(r_.value) and r_.value.op == "call" and r_.value.a[0].op in ("ite", "global", "call", "sub"):
+            # the result of calling something chosen at run time / a module-level callable built by a library (lru_cache(...)(f),
+            # a table of decoders): not followed
+            raise AnalysisError(f"from_kd_buf returns {sym.pretty(r_.value)[:70]}: the callee is not a function these rules "
+                                f"interpret in place - what the record's fields are is not decided")
         if not is_kevent(r_.value):
             run.ob("R2", MOD, "from_kd_buf", f"return at line {r_.lineno} is the decoding of the record", False,
                    f"from_kd_buf returns {sym.pretty(r_.value)[:60]} when {[sym.pretty(c)[:40] + ('' if p_ else ' is false') for c, p_ in r_.pc]}"
